@@ -105,7 +105,7 @@ func (m *Model) Alphabet() []string {
 		a = append(a, "k.rm", "k.run", "k.im")
 	}
 	if m.O.NewAddr {
-		a = append(a, "n.a")
+		a = append(a, "n.a", "n.w")
 	}
 	if m.O.Import || m.O.Remove {
 		a = append(a, "z")
@@ -179,7 +179,10 @@ func (m *Model) Enabled(w *world.World) []string {
 				}
 			}
 		case 'n':
-			if w.NewAddrCalls < 2 {
+			if ev == "n.a" && w.NewAddrCalls < 2 {
+				s = append(s, ev)
+			}
+			if ev == "n.w" && w.Wallets["D"] == nil {
 				s = append(s, ev)
 			}
 		case 'z':
